@@ -206,19 +206,25 @@ func cmdWorker(args []string) {
 				out.Flush()
 				fatal2("run %d: %s", i, herr)
 			}
-			d := tape.Mix(uint64(st.Steps), uint64(st.NonTrivial), uint64(len(t.Vals)), st.Digest)
+			// h: what the simulator decided (every drawn value) and the verdict;
+			// d: h plus how the tree under test reacted (source calls, delivery
+			// logs, step sequences). On a tree that consults the Go runtime for
+			// its own decisions (sync.Pool hits depend on GC and P assignment) d
+			// may differ from process to process while h may not.
+			h := tape.Mix(uint64(len(t.Vals)))
 			for _, x := range t.Vals {
-				d = tape.Mix(d, x)
+				h = tape.Mix(h, x)
 			}
 			if v != nil && !st.VerdictOrderDependent {
-				d = tape.Mix(d, tape.HashString(v.Class))
+				h = tape.Mix(h, tape.HashString(v.Class))
 			}
+			d := tape.Mix(h, uint64(st.Steps), uint64(st.NonTrivial), st.Digest)
 			var lg uint64
 			for k := range st.Logs {
 				lg += tape.SplitMix64(k) // commutative: map order must not matter
 			}
 			d = tape.Mix(d, lg)
-			fmt.Fprintf(out, "{\"t\":\"digest\",\"i\":%d,\"d\":\"%016x\"}\n", i, d)
+			fmt.Fprintf(out, "{\"t\":\"digest\",\"i\":%d,\"d\":\"%016x\",\"h\":\"%016x\"}\n", i, d, h)
 		}
 		return
 	}
@@ -674,7 +680,7 @@ func cmdRun(args []string) {
 
 	// determinism re-check: a sample of runs is executed again in two fresh
 	// processes under different GOMAXPROCS and must give identical digests
-	recheckN, recheckBad := determinismRecheck(*propID, *tier, *seed, runs)
+	recheckN, recheckBad, recheckReaction := determinismRecheck(*propID, *tier, *seed, runs)
 
 	// violations: group by signature, earliest run first
 	sort.Slice(found, func(i, j int) bool { return found[i].I < found[j].I })
@@ -846,6 +852,14 @@ func cmdRun(args []string) {
 		}
 		fmt.Printf("note: %d further violation signature(s) did not reproduce in fresh processes (state carried between runs inside the tree under test?); the reproduced ones stand: %s\n", len(unreproduced), unreproduced[0])
 	}
+	if recheckReaction > 0 {
+		// same drawn values, same verdict, but the tree asked the source for
+		// other request sizes / executed other statements: the tree itself takes
+		// decisions the simulator does not own (sync.Pool hits depend on the
+		// garbage collector and on which P a goroutine runs). Not a verdict and
+		// not a harness fault; on the unchanged tree the count is 0.
+		fmt.Printf("note: determinism re-check: %d of %d re-executed runs reacted differently (source calls / step sequence) with identical inputs and verdicts: the tree under test takes decisions of its own (sync.Pool?)\n", recheckReaction, recheckN)
+	}
 	if recheckBad > 0 {
 		if exit == 0 {
 			fatal2("determinism re-check: %d of %d re-executed runs gave a different digest", recheckBad, recheckN)
@@ -880,7 +894,7 @@ func cmdRun(args []string) {
 			"seeds":                  map[string]interface{}{"base_seed": *seed, "run_index_from": 0, "run_index_to": runs - 1, "per_run_seed": "splitmix(base, property, index)"},
 			"components":             hooks.Components,
 			"engine":                 hooks.Engine,
-			"determinism_recheck":    map[string]int{"runs_reexecuted_twice": recheckN, "mismatches": recheckBad},
+			"determinism_recheck":    map[string]int{"runs_reexecuted_twice": recheckN, "mismatches": recheckBad, "same_inputs_and_verdict_but_different_reaction_of_the_tree": recheckReaction},
 			"violating_runs":         vcount,
 			"violation_replays":      reported,
 			"known_findings_matched": knownMatched,
@@ -949,7 +963,7 @@ func writeJSON(path string, v interface{}) {
 	}
 }
 
-func determinismRecheck(prop, tier string, seed uint64, runs int64) (int, int) {
+func determinismRecheck(prop, tier string, seed uint64, runs int64) (count int, bad int, reactionOnly int) {
 	n := runs / 20
 	if n > 400 {
 		n = 400
@@ -962,8 +976,8 @@ func determinismRecheck(prop, tier string, seed uint64, runs int64) (int, int) {
 	for i := int64(0); i < n; i++ {
 		idx = append(idx, fmt.Sprint(int64(r.Uint64()%uint64(runs))))
 	}
-	get := func(procs int) map[int64]string {
-		out := map[int64]string{}
+	get := func(procs int) map[int64][2]string {
+		out := map[int64][2]string{}
 		cmd := exec.Command(selfExe(), "worker", "-prop", prop, "-tier", tier, "-seed", fmt.Sprint(seed), "-digest", strings.Join(idx, ","))
 		cmd.Env = append(append(append(os.Environ(), "GOGC=800"), hooks.WorkerEnv...), fmt.Sprintf("GOMAXPROCS=%d", procs))
 		b, err := cmd.Output()
@@ -976,27 +990,30 @@ func determinismRecheck(prop, tier string, seed uint64, runs int64) (int, int) {
 				T string `json:"t"`
 				I int64  `json:"i"`
 				D string `json:"d"`
+				H string `json:"h"`
 			}
 			if json.Unmarshal(sc.Bytes(), &d) == nil && d.T == "digest" {
-				out[d.I] = d.D
+				out[d.I] = [2]string{d.D, d.H}
 			}
 		}
 		return out
 	}
-	var a, b map[int64]string
+	var a, b map[int64][2]string
 	var wg sync.WaitGroup
 	wg.Add(2)
 	go func() { defer wg.Done(); a = get(1) }()
 	go func() { defer wg.Done(); b = get(16) }()
 	wg.Wait()
 	if a == nil || b == nil {
-		return 0, 0 // a run hung or died; that is reported through the main path
+		return 0, 0, 0 // a run hung or died; that is reported through the main path
 	}
-	bad := 0
 	for i, d := range a {
-		if b[i] != d {
+		switch {
+		case b[i][1] != d[1]:
 			bad++
+		case b[i][0] != d[0]:
+			reactionOnly++
 		}
 	}
-	return len(a), bad
+	return len(a), bad, reactionOnly
 }
